@@ -285,31 +285,96 @@ CountShared(c) ==
 (* on real references.  c.t = initial terms, c.ops = the operations (the   *)
 (* value of a "field" operation is a raw term), obs[s] = renderings of all *)
 (* references after operation s.  After every clash-free step every        *)
-(* reference must render the value its class denotes in the store model    *)
-(* (so aliases render identically, whichever of them was closed); at the   *)
-(* first clash the references the call was made on must show it; nothing   *)
-(* is claimed afterwards.                                                  *)
+(* reference (and every container that holds one) must render the value    *)
+(* its class denotes in the store model (so aliases render identically,    *)
+(* whichever of them was closed); at the first clash the references the    *)
+(* call was made on must show it AND so must every other reference of the  *)
+(* clashed class, while the other classes keep their values                *)
+(* (seq_class_agrees); nothing is claimed afterwards.                      *)
 (***************************************************************************)
 SeqOp(op) == IF op[1] = "field" THEN <<"field", op[2], op[3], Canon(op[4])>> ELSE op
 
-RECURSIVE JudgeSeqFrom(_, _, _)
-JudgeSeqFrom(c, st, s) ==
+IsGroundScalar(v) == IsAtom(v) /\ v[2] \in GroundAtoms
+NRefsOf(c) == Len(c.t)
+\* obs[s] = renderings of the references 1..n, then (shape # "plain") of the
+\* containers 1..n that hold them.
+GotRef(c, s, k) == R(c.runs[1], s, k)
+GotBox(c, s, k) == R(c.runs[1], s, NRefsOf(c) + k)
+
+\* Localisation only (rule R1).  Unify of two references that both denote the
+\* same ground scalar returns without linking them (known finding
+\* F-C16-equal-ground-scalars-not-linked), so a later clash on one of them is
+\* not shown by the other (nor by what follows it).  gg = pairs unified while
+\* both denoted a ground scalar.
+GroundPairs(st, gg, op) ==
+  IF op[1] \in {"unify", "unifyc"}
+     /\ IsGroundScalar(st.val[op[2]]) /\ IsGroundScalar(st.val[op[3]])
+  THEN gg \cup {<<op[2], op[3]>>} ELSE gg
+
+RECURSIVE JudgeSeqFrom(_, _, _, _)
+JudgeSeqFrom(c, st, gg, s) ==
   IF s > Len(c.ops) THEN <<>>
   ELSE
-    LET run == c.runs[1]
-        op  == SeqOp(c.ops[s])
-        nx  == StoreApply(st, op)
-        got == Step(run, s)
-    IN IF ~OpEnabled(st, op) THEN Fail(FALSE, "input_wellformed", s, op)
+    LET op    == SeqOp(c.ops[s])
+        nx    == StoreApply(st, op)
+        n     == NRefsOf(c)
+        boxed == c.shape # "plain"
+        want  == [k \in 1..n |-> nx.val[k]]
+        wantb == [k \in 1..n |-> Wrap(c.shape, nx.val[k])]
+        got   == [k \in 1..n |-> GotRef(c, s, k)]
+        gotb  == [k \in 1..n |-> IF boxed THEN GotBox(c, s, k) ELSE wantb[k]]
+        agree == got = want /\ gotb = wantb
+        \* the references the call was made on
+        onOk  == IF op[1] = "unifyc" THEN IsBot(gotb[op[2]]) /\ IsBot(gotb[op[3]])
+                 ELSE IsBot(got[op[2]]) /\ (op[1] = "unify" => IsBot(got[op[3]]))
+        stale == {k \in 1..n : IsBot(want[k]) /\ ~IsBot(got[k])}
+        staleb == {k \in 1..n : IsBot(wantb[k]) /\ ~IsBot(gotb[k])}
+        \* every difference is a reference (or container) of the clashed class
+        \* that shows no clash, and that class holds a pair the code left
+        \* unlinked
+        known == /\ \A k \in 1..n : got[k] = want[k] \/ k \in stale
+                 /\ \A k \in 1..n : gotb[k] = wantb[k] \/ k \in staleb
+                 /\ \E pr \in gg : IsBot(want[pr[1]]) /\ IsBot(want[pr[2]])
+    IN IF ~OpEnabled(st, op) \/ (op[1] = "unifyc" /\ ~boxed)
+       THEN Fail(FALSE, "input_wellformed", s, op)
        ELSE IF StoreClash(nx)
-       THEN Fail(IsBot(got[op[2]]) /\ (op[1] = "unify" => IsBot(got[op[3]])),
-                 "seq_clash_iff_no_common_instance", <<s, nx.val>>, got)
-       ELSE Fail(got = nx.val, "seq_step_equals_store", <<s, nx.val>>, got)
-            \o JudgeSeqFrom(c, nx, s + 1)
+       THEN Fail(onOk, "seq_clash_iff_no_common_instance", <<s, want>>, <<got, gotb>>)
+            \o Fail(agree, "seq_class_agrees",
+                    [step |-> s, want |-> want, wantc |-> wantb,
+                     deviation |-> IF known THEN "unlinked_equal_ground_scalars"
+                                            ELSE "none"],
+                    <<got, gotb>>)
+       ELSE Fail(agree, "seq_step_equals_store", <<s, want, wantb>>, <<got, gotb>>)
+            \o JudgeSeqFrom(c, nx, GroundPairs(st, gg, op), s + 1)
 
 JudgeSeq(c) ==
-  Fail(InputsOk(c, 0) /\ Len(c.runs[1].obs) = Len(c.ops), "input_wellformed", "", "")
-  \o JudgeSeqFrom(c, StoreInit([k \in DOMAIN c.t |-> T(c.t[k])]), 1)
+  Fail(/\ InputsOk(c, 0)
+       /\ Len(c.runs[1].obs) = Len(c.ops)
+       /\ c.shape \in {"plain", "field", "elem"}
+       /\ \A s \in DOMAIN c.runs[1].obs :
+            Len(c.runs[1].obs[s]) = (IF c.shape = "plain" THEN 1 ELSE 2) * Len(c.t),
+       "input_wellformed", "", "")
+  \o JudgeSeqFrom(c, StoreInit([k \in DOMAIN c.t |-> T(c.t[k])]),
+                  {}, 1)
+
+\* The shape "an abstract reference met a ground scalar, later a member of
+\* that class clashes": vg = pairs unified while one denoted Any / Singular /
+\* Sequential and the other a ground scalar.
+RECURSIVE VagueGroundThenClash(_, _, _, _)
+VagueGroundThenClash(c, st, s, vg) ==
+  IF s > Len(c.ops) \/ StoreClash(st) THEN FALSE
+  ELSE
+    LET op == SeqOp(c.ops[s])
+        nx == StoreApply(st, op)
+        un == op[1] \in {"unify", "unifyc"}
+        hit == un /\ ( (IsAtom(st.val[op[2]]) /\ st.val[op[2]][2] \in VagueAtoms
+                         /\ IsGroundScalar(st.val[op[3]]))
+                     \/ (IsAtom(st.val[op[3]]) /\ st.val[op[3]][2] \in VagueAtoms
+                         /\ IsGroundScalar(st.val[op[2]])) )
+    IN IF StoreClash(nx)
+       THEN \E pr \in vg : pr[1] \in ClassOf(nx, op[2]) /\ pr[2] \in ClassOf(nx, op[2])
+       ELSE VagueGroundThenClash(c, nx, s + 1,
+                                 IF hit THEN vg \cup {<<op[2], op[3]>>} ELSE vg)
 
 \* Coverage of the sequences (walks the same store model).
 RECURSIVE SeqFacts(_, _, _, _)
@@ -333,6 +398,12 @@ CountSeq(c) ==
                     <<FALSE, FALSE, FALSE, FALSE>>)
   IN Bump(55) /\ BumpIf(f[1], 56) /\ BumpIf(f[2], 57) /\ BumpIf(f[3], 58)
      /\ BumpIf(~f[4], 59) /\ BumpIf(Len(c.t) = 3, 60)
+     /\ LET vgc == VagueGroundThenClash(
+                     c, StoreInit([k \in DOMAIN c.t |-> T(c.t[k])]), 1, {})
+        IN /\ BumpIf(vgc /\ c.shape = "plain", 61)
+           /\ BumpIf(vgc /\ c.shape = "field", 62)
+           /\ BumpIf(vgc /\ c.shape = "elem", 63)
+           /\ BumpIf(vgc /\ \E k \in DOMAIN c.ops : c.ops[k][1] = "unifyc", 64)
 
 (***************************************************************************)
 Judge(c) ==
@@ -353,7 +424,7 @@ Count(c) ==
     [] c.k = "seq"    -> CountSeq(c)
     [] OTHER          -> TRUE
 
-Registers == 1..60
+Registers == 1..70
 
 VARIABLE i
 
